@@ -176,6 +176,21 @@ def gen_nullres(rng):
                 placements=pl, kind="valid", style="nullres")
 
 
+def gen_big(rng):
+    """Quantities beyond 2^53 (SDRAM byte counts are large; a float anywhere in the arithmetic shows here)."""
+    a = rng.choice([2, 4, 8, 3])
+    base = rng.choice([2 ** 53, 2 ** 53 + 1, 2 ** 60, 2 ** 64 - 3, 3 * 2 ** 52 + 1])
+    first = base + rng.randint(0, 9)
+    cap = first + rng.randint(20, 60)
+    cons = [["align", 0, a]]
+    if rng.random() < 0.5:
+        cons.append(["reserve", 0, first + 3, first + 3 + rng.randint(0, 4), rng.choice([None, [0, 0]])])
+    vres = [[1, [[0, first]]]] + [[v + 2, [[0, rng.randint(0, 6)]]] for v in range(rng.randint(1, 3))]
+    pl = [[v, [0, 0]] for v, _ in vres]
+    return dict(machine=dict(w=1, h=1, res=[[0, cap]], exc=[], dead=[]), vres=vres, constraints=cons,
+                placements=pl, kind="valid", style="big")
+
+
 # ------------------------------------------------------------------ Coq literals
 def coq_case(c):
     m = c["machine"]
@@ -312,7 +327,11 @@ def run(chk, args):
         n = 600 if chk.tier == "quick" else 20000
         cases = [gen_tight(chk.rng) if i % 4 == 1 else gen_brim(chk.rng) if i % 8 == 2
                  else gen_nullres(chk.rng) if i % 8 == 4
+                 else gen_big(chk.rng) if i % 16 == 6
                  else gen_case(chk.rng, malformed=(i % 8 == 7)) for i in range(n)]
+    for i, c in enumerate(cases):
+        if i % 3 == 0 and "subclass" not in c:
+            c["subclass"] = True          # constraints handed over as instances of user-defined subclasses
     corpus = lib.os.path.join(lib.VERIF, "corpus", "C05.json")
     if lib.os.path.exists(corpus):
         cases = json.load(open(corpus)) + cases
@@ -324,6 +343,7 @@ def run(chk, args):
     for c, o in zip(cases, outs):
         chk.count("kind:" + c["kind"])
         chk.count("style:" + c.get("style", "?"))
+        chk.count("constraint-subclass-instances:" + str(bool(c.get("subclass"))))
         chk.count("outcome:" + o[0])
         chk.note_case(c, nontrivial(c, o))
         why = oracle(c, o)
